@@ -7,7 +7,10 @@ Import ListNotations.
 Definition case := (config * list (msg * bool))%type.
 
 Definition cfg (wr wa wor only : optv) : config := {| c_wr := wr; c_wa := wa; c_wor := wor; c_only := only |}.
-Definition sg (k : key) (i : kinfo) (c : bool) : option sgn := Some {| signer := k; ki := i; corrupt := c |}.
+Definition sg (k : key) (i : kinfo) (c : bool) : option sgn := Some {| signer := k; ki := i; corrupt := c; shp := std |}.
+(* a signature of another shape: References, CanonicalizationMethod, Transforms, ds:Object, second ds:Signature *)
+Definition sgx (k : key) (i : kinfo) (c : bool) (rf : list rtarget) (ca : calg) (t : list talg) (o : bool) (x : extra) : option sgn :=
+  Some {| signer := k; ki := i; corrupt := c; shp := {| refs := rf; c14n := ca; trs := t; obj := o; xsig := x |} |}.
 Definition st (rw aw : who) (r a : option sgn) (e : bool) (b : bind) (obs : bool) : msg * bool :=
   ({| r_who := rw; a_who := aw; m_rs := r; m_as := a; m_enc := e; m_bind := b |}, obs).
 Definition mk (c : config) (steps : list (msg * bool)) : case := (c, steps).
